@@ -20,6 +20,21 @@ def main(argv=None):
     except ModuleNotFoundError:
         print(f"ANALYSIS-ERROR property={prop} no rule module")
         return 2
+    post = None
+    if tier == "thorough":
+        def post():
+            from . import selftest
+            r = selftest.run(prop)
+            lines = []
+            for x in r["problems"]:
+                lines.append(f"ANALYSIS-ERROR property={prop} self-test variant {x['id']} ({x['kind']}): {x['status']} {x.get('rules')} {x['detail'][:200]}")
+            if r["variants"] and not r["ok"] and not r["problems"]:
+                lines.append(f"ANALYSIS-ERROR property={prop} self-test: only {r.get('applied')} of {r['variants']} variants still apply to this tree")
+            extra = {"selftest": {"variants": r["variants"], "applied": r.get("applied", 0), "detected": r.get("detected", 0),
+                                  "silent_on_preserving": r.get("silent", 0),
+                                  "undecided_on_breaking": r.get("undecided_on_breaking", 0),
+                                  "matrix": [{k: x.get(k) for k in ("id", "kind", "status", "rules")} for x in r["results"]]}}
+            return extra, (0 if r["ok"] else 2), lines
     rc = core.run_property(
         prop,
         tier,
@@ -27,11 +42,8 @@ def main(argv=None):
         getattr(mod, "LEVEL", "other"),
         mod.EXPLANATION,
         getattr(mod, "ASSUMPTIONS", []),
+        post=post,
     )
-    if tier == "thorough" and hasattr(mod, "selftest"):
-        rc2 = mod.selftest(prop)
-        if rc == 0 and rc2 != 0:
-            rc = rc2
     return rc
 
 
